@@ -376,7 +376,10 @@ class Checker(object):
         ctx = self.ctx
         ctx.ev()
         try:
-            return True, (fn(u, **kw) if kw else fn(u))
+            v = fn(u, **kw) if kw else fn(u)
+            if isinstance(u, str) and getattr(ctx, "remember", None) and getattr(fn, "__module__", "").startswith("ural.") and "<" not in getattr(fn, "__qualname__", "<"):
+                ctx.remember(fn.__module__ + ":" + fn.__qualname__, [u], dict(kw or {}), v, cap=4000)
+            return True, v
         except Exception as e:
             if convert and isinstance(e, TypeError) and truth is not True and "raise TypeError" in ctx_site_line(e):
                 ctx.count("convert-typeerror-foreign")
